@@ -26,12 +26,13 @@
    already closed when the call started (used only to STATE "writes after Close fail").
 
    No proofs in this file. *)
-From FH Require Import Model.Base.
+From FH Require Import Model.Base Gen.GenC33.
 Open Scope N_scope.
 
-(* make(chan *byteBuffer, 4) in NewPipeConns — a literal inside a call: the translator has no item kind
-   for it, so the harness reads cap(rCh) from the real object on every run and C33Check compares. *)
-Definition chan_cap : N := 4.
+(* make(chan *byteBuffer, 4) in NewPipeConns: the integer constants of the function body, regenerated from the
+   source (Gen.GenC33.npc_ints = the two channel capacities); the harness also reads cap(rCh) from the real
+   object on every run and C33Check compares both channels. *)
+Definition chan_cap : N := Z.to_N (nth 0 npc_ints 0%Z).
 
 Inductive dl := DNone | DArmed | DFired.
 Inductive wres := WOk | WClosed | WTimeout.
